@@ -10,6 +10,15 @@
     listener <once> <ops>                     → ok accepted=<a> errors=<e> active=<g> closed=<k> allgone=<0|1>
           op = a<n> (accept, n closers) | e (accept error) | c<i>.<j>
     holdsconns <accepted> <closed> <active>   → true | false <reason>
+    closer <guard> <n> <results> <dflt> <sched> → ok callbacks=<k> closes=<c> done=<d>
+          the close machine over a wrapped Close that returns <results> (string over n|c|o = nil |
+          net.ErrClosed | other error, `_` = empty) call by call and <dflt> afterwards; guard = once | none | notErrClosed
+    listenerr <guard> <ops>                   → ok accepted=<a> errors=<e> active=<g> closed=<k> allgone=<0|1>
+          op = a<n>/<results>/<dflt> | e | c<i>.<j>
+    holdsclose <callbacks> <returned>         → true | false <reason>
+    observe <rule> <ops>                      → ok rx=<n> tx=<n> in=<n> out=<n>
+          op = r.<n> | w.<n> | f.<n> | io.<r|w|f>.<requested>.<done>.<err> ; rule = done (the code) | okonly
+    holdsbytes <rx> <tx> <in> <out>           → true | false <reason>
 
   events:   r.<METHOD> | w.<METHOD>.<status>      (comma list, `~` = empty)
   inflight: <METHOD>:<int>,…   (methods with a series, i.e. that occurred in an event)
@@ -125,6 +134,64 @@ def decodeLOp (s : String) : Option LOp :=
     | _ => none
   else none
 
+def decodeResult : Char → Option CloseResult
+  | 'n' => some .nil
+  | 'c' => some .errClosed
+  | 'o' => some .other
+  | _ => none
+
+def decodeResults (s : String) : Option (List CloseResult) :=
+  if s = "_" then some [] else s.toList.mapM decodeResult
+
+def decodeDflt (s : String) : Option CloseResult :=
+  match s.toList with
+  | [c] => decodeResult c
+  | _ => none
+
+def decodeGuard : String → Option Guard
+  | "once" => some .once
+  | "none" => some .none
+  | "notErrClosed" => some .notErrClosed
+  | _ => none
+
+def decodeROp (s : String) : Option ROp :=
+  if s = "e" then some .acceptError
+  else if s.startsWith "a" then
+    match ((s.drop 1).toString).splitOn "/" with
+    | [n, rs, d] => do
+      let n ← natOf n
+      let rs ← decodeResults (if rs = "" then "_" else rs)
+      let d ← decodeDflt d
+      pure (.accept n (resOf rs d))
+    | _ => none
+  else if s.startsWith "c" then
+    match ((s.drop 1).toString).splitOn "." with
+    | [i, j] => do
+      let i ← natOf i
+      let j ← natOf j
+      pure (.close i j)
+    | _ => none
+  else none
+
+def decodeIoKind : String → Option IoKind
+  | "r" => some .read
+  | "w" => some .write
+  | "f" => some .readFrom
+  | _ => none
+
+def decodeIoOp (s : String) : Option IoOp :=
+  match s.splitOn "." with
+  | ["r", n] => (natOf n).map .read
+  | ["w", n] => (natOf n).map .write
+  | ["f", n] => (natOf n).map .readFrom
+  | ["io", k, r, d, e] => do
+    let k ← decodeIoKind k
+    let r ← natOf r
+    let d ← natOf d
+    let e ← boolOf e
+    pure (.io k r d e)
+  | _ => none
+
 def handle : List String → String
   | ["path", kind, method, status, werr] =>
     match decodePath kind method status werr with
@@ -167,6 +234,39 @@ def handle : List String → String
     | some a, some k, some g =>
       if holdsConns a k g then "true" else s!"false active-{g}-is-not-accepted-{a}-minus-closed-{k}-or-negative"
     | _, _, _ => "bad-op"
+  | ["closer", guard, n, results, dflt, sched] =>
+    match decodeGuard guard, natOf n, decodeResults results, decodeDflt dflt, natList sched with
+    | some g, some n, some rs, some d, some sc =>
+      let s := ((RCloseSt.init n).run g (resOf rs d) sc).base
+      s!"ok callbacks={s.callbacks} closes={s.closes} done={s.doneCount}"
+    | _, _, _, _, _ => "bad-op"
+  | ["listenerr", guard, ops] =>
+    match decodeGuard guard, (splitList ops).mapM decodeROp with
+    | some g, some ops =>
+      let s := RLSt.init.run g ops
+      s!"ok accepted={s.accepted} errors={s.errors} active={s.active} closed={s.closedCount} allgone={ofBool s.allGone}"
+    | _, _ => "bad-op"
+  | ["holdsclose", callbacks, returned] =>
+    match natOf callbacks, natOf returned with
+    | some k, some r =>
+      if holdsClose k r then "true" else s!"false close-callback-ran-{k}-times-after-{r}-Close-calls-returned"
+    | _, _ => "bad-op"
+  | ["observe", rule, ops] =>
+    match (splitList ops).mapM decodeIoOp with
+    | some ops =>
+      if rule = "done" then
+        let o := (Observer.mk 0 0).run ops
+        s!"ok rx={o.rx} tx={o.tx} in={bytesIn ops} out={bytesOut ops}"
+      else if rule = "okonly" then
+        let o := (Observer.mk 0 0).runOkOnly ops
+        s!"ok rx={o.rx} tx={o.tx} in={bytesIn ops} out={bytesOut ops}"
+      else "bad-op"
+    | none => "bad-op"
+  | ["holdsbytes", rx, tx, i, o] =>
+    match natOf rx, natOf tx, natOf i, natOf o with
+    | some rx, some tx, some i, some o =>
+      if holdsBytes rx tx i o then "true" else s!"false observer-rx-{rx}-tx-{tx}-but-the-connection-moved-in-{i}-out-{o}"
+    | _, _, _, _ => "bad-op"
   | _ => "bad-op"
 
 end C13
